@@ -56,6 +56,42 @@ def run_case(ld, prog, aspects, prefix_hook=None, watchdog_s=8):
                     pre += [ob.guarded(lambda: ds2[k]) for k in reversed(m.labels)]
                 ob.guarded(lambda: tuple(ds2.keys()))
                 o['scramble'] = (order, pre, ob.take(ds2, limit))
+            if 'interleave' in aspects and status == 'ok' and m.finite \
+                    and stable_hash(repr(prog)) % 3 == 1:
+                # two iterators over the SAME dataset object, advanced in an
+                # uneven rhythm (2 steps / 1 step), the second one closed half
+                # way and a third one started then: whatever an iteration
+                # needs is its own
+                d3 = programs.build(ld, prog)
+
+                def uneven():
+                    a, b = iter(d3), iter(d3)
+                    oa, ob, oc = [], [], []
+                    c = None
+                    for step in range(2 * m.n + 6):
+                        for _ in range(2):
+                            try:
+                                oa.append(next(a))
+                            except StopIteration:
+                                pass
+                        if b is not None:
+                            try:
+                                ob.append(next(b))
+                            except StopIteration:
+                                pass
+                            if len(ob) >= max(1, m.n // 2):
+                                close = getattr(b, 'close', None)
+                                if close:
+                                    close()
+                                b = None
+                                c = iter(d3)
+                        elif c is not None:
+                            try:
+                                oc.append(next(c))
+                            except StopIteration:
+                                c = None
+                    return oa, ob, oc
+                o['interleave'] = ob.guarded(uneven)
             if 'neighbour' in aspects and status == 'ok' and m.finite \
                     and len(prog['src']) <= 3 and stable_hash(repr(prog)) % 3 == 0:
                 # a second pipeline, built from the same program over a source
@@ -152,6 +188,18 @@ def judge_c01(prog, status, m, o, res):
                               {'indices': order, 'got': pre[:len(order)], 'want': wantpre},
                               sig={'last_op': lo})
                 return True
+    if 'interleave' in o:
+        res.count('interleaved_iterators_compared')
+        got = o['interleave']
+        w = want[0]
+        if is_err(got) or list(got[0]) != w or list(got[1]) != w[:len(got[1])] \
+                or list(got[2]) != w[:len(got[2])] or (m.n >= 2 and not got[1]):
+            res.violation('interleaved-iterators-differ', case,
+                          {'first': got if is_err(got) else got[0],
+                           'second_until_closed': None if is_err(got) else got[1],
+                           'third_started_later': None if is_err(got) else got[2],
+                           'want': w}, sig={'last_op': lo})
+            return True
     if 'neighbour' in o:
         res.count('lockstep_neighbour_pipelines_compared')
         got, want_b, ks, labels_b = o['neighbour']
